@@ -7,6 +7,9 @@ package c20
 
 import (
 	"fmt"
+	"os"
+	"path/filepath"
+	"sync"
 	"testing"
 	"time"
 
@@ -26,6 +29,28 @@ type BBCase struct {
 	Warmup bool
 	// HoldMS: the waiters stay blocked this long before any request is sent
 	HoldMS int
+	// Local: the server runs in local mode (a PIV tool on PATH, here a stand-in script); the waiting rules
+	// are the same in both modes
+	Local bool `json:",omitempty"`
+}
+
+var (
+	toolOnce sync.Once
+)
+
+// standInTool puts a minimal yubico-piv-tool on PATH so that NewServer(..., remote=false) starts.
+func standInTool() {
+	toolOnce.Do(func() {
+		d, err := os.MkdirTemp("", "vpiv20")
+		if err != nil {
+			panic(err)
+		}
+		script := "#!/bin/sh\nprintf 'Version: 5.4.3\\nSlot 9a:\\n'\nexit 0\n"
+		if err := os.WriteFile(filepath.Join(d, "yubico-piv-tool"), []byte(script), 0o755); err != nil {
+			panic(err)
+		}
+		os.Setenv("PATH", d+":"+os.Getenv("PATH"))
+	})
 }
 
 func execBB(c BBCase) (vh.Outcome, error) {
@@ -36,9 +61,13 @@ func execBB(c BBCase) (vh.Outcome, error) {
 	}
 	defer p.Close()
 	_ = p.Ring().Add(agent.AddedKey{PrivateKey: vh.Key("ed25519c"), Comment: "k"})
-	srv, err := yubiagent.NewServer(p.Path, true)
+	if c.Local {
+		standInTool()
+		out.Classes = append(out.Classes, "local-mode")
+	}
+	srv, err := yubiagent.NewServer(p.Path, !c.Local)
 	if err != nil {
-		return out, vh.Errf("NewServer: %v", err)
+		return out, vh.Errf("NewServer(remote=%v): %v", !c.Local, err)
 	}
 	reqConn, err := dial(srv)
 	if err != nil {
@@ -160,11 +189,12 @@ func execBB(c BBCase) (vh.Outcome, error) {
 
 func TestC20Blackbox(t *testing.T) {
 	vh.Run(t, vh.Spec[BBCase]{Property: "C20", Name: "TestC20Blackbox", Journal: true,
-		Rule: "black-box rounds on one real NewServer(remote=true), nothing read from inside the server: 1..20 waiters (direct or through their own client connection; beyond 4 mostly through client connections, each an outstanding request of the server) on one code 0..39 (not 35) get 150 ms to register (client waiters optionally after other extended calls on their connection; in a sixth of the cases everybody then stays blocked for 1.2 / 3.5 / 5.5 s without any request, during which nobody may return); a request with another code (not 35) must release none of them; a request with their code must release all of them - a waiter that returns only after the request was repeated (up to 4 times) may have registered late and is not judged, one that never returns is a lost wake-up; 1..3 such rounds on the same server (state left by an earlier round matters). Non-trivial: >= 2 waiters.",
+		Rule: "black-box rounds on one real NewServer (remote mode, or - a third of the cases - local mode with a stand-in PIV tool on PATH), nothing read from inside the server: 1..20 waiters (direct or through their own client connection; beyond 4 mostly through client connections, each an outstanding request of the server) on one code 0..39 (not 35) get 150 ms to register (client waiters optionally after other extended calls on their connection; in a sixth of the cases everybody then stays blocked for 1.2 / 3.5 / 5.5 s without any request, during which nobody may return); a request with another code (not 35) must release none of them; a request with their code must release all of them - a waiter that returns only after the request was repeated (up to 4 times) may have registered late and is not judged, one that never returns is a lost wake-up; 1..3 such rounds on the same server (state left by an earlier round matters). Non-trivial: >= 2 waiters.",
 		Gen: func(t *rapid.T) BBCase {
 			c := BBCase{Code: rapid.SampledFrom([]int{0, 11, 13, 18, 19, 31, 32, 39, 1, 17}).Draw(t, "code"), Rounds: rapid.IntRange(1, 3).Draw(t, "rounds")}
 			c.Other = rapid.SampledFrom([]int{11, 19, 1, 32, 200, 13}).Draw(t, "other")
 			c.Warmup = rapid.Bool().Draw(t, "warmup")
+			c.Local = rapid.IntRange(0, 2).Draw(t, "local") == 1
 			if rapid.IntRange(0, 5).Draw(t, "hold") == 2 {
 				c.HoldMS, c.Rounds = rapid.SampledFrom([]int{1200, 3500, 5500}).Draw(t, "holdMS"), 1
 			}
